@@ -1,6 +1,7 @@
 package main
 
 import (
+	"runtime"
 	"fmt"
 	"os"
 	"path/filepath"
@@ -1129,6 +1130,11 @@ func (x *seqExec) doGC(op Op) {
 	})
 	if os.Getenv("VERIF_DEBUG") != "" {
 		fmt.Fprintf(os.Stderr, "MAIN resumes after gc wait: ok=%v step=%d hold=%v now=%v\n", ok, g.W.Steps(), x.gcHold != nil && x.gcHold(), g.W.Now())
+		if !ok {
+			fmt.Fprintf(os.Stderr, "live tasks: %v\n", g.W.LiveTasks())
+			buf := make([]byte, 1<<20)
+			fmt.Fprintf(os.Stderr, "%s\n", buf[:runtime.Stack(buf, true)])
+		}
 	}
 	x.inGC = false
 	if x.gcWritten != nil {
